@@ -9,7 +9,7 @@ from ..core import real
 from ..oracle import (ACCEPT, REJECT, EITHER, slack3, slack_tripped_int, and3,
                       verdict3, validsig, sha256, shake256, pubkey_of_seed,
                       bool_of, base_mult, point_add, as_key_arg, PREFIXES, DECORATIONS, SUFFIXES,
-                      LOCK_FORMS, LIMITS, in_form, code_of)
+                      LOCK_FORMS, LIMITS, in_form, code_of, WRAPS, wrap_lock)
 
 PID = 'C15'
 ISOLATE = True      # one forked process per run: nothing a run does to process-global
@@ -39,7 +39,8 @@ REQUIRED_PROBES = ['refund_at_deadline', 'refund_deadline_minus_1', 'claim_after
                    'hash_size_32', 'hash_size_64', 'step_between_reads', 'corrupt_sig',
                    'corrupt_preimage', 'corrupt_pubkey', 'corrupt_selector', 'threshold_per_call',
                    'default_timestamp', 'crafted_witness', 'witness_with_code', 'witness_ending_in_return',
-                   'lock_form_bytes', 'lock_form_resrc', 'lock_form_redec', 'explicit_limits']
+                   'lock_form_bytes', 'lock_form_resrc', 'lock_form_redec', 'explicit_limits'] + \
+    ['lock_wrapped_' + x for x in sorted(set(WRAPS) - {'none'})]
 
 LKINDS = ['htlc_sha', 'htlc_shake', 'htlc2_sha', 'htlc2_shake', 'ptlc', 'ptlc_tweak']
 WKINDS = ['htlc', 'htlc2', 'ptlc', 'ptlc_refund']
@@ -129,7 +130,8 @@ def gen_step(rng, cell, oid, out, clocks, vname, thr, fault_free):
             # script prefix before the signing operation
             'keys': rng.choice(['bytes', 'bytes', 'object']), 'prefix': rng.choice(PREFIXES),
             'decor': rng.choice(DECORATIONS), 'suffix': rng.choice(SUFFIXES),
-            'form': rng.choice(LOCK_FORMS), 'limits': rng.below(len(LIMITS))}
+            'form': rng.choice(LOCK_FORMS), 'limits': rng.below(len(LIMITS)),
+            'wrap': rng.choice(WRAPS)}
     if not fault_free:
         r = rng.below(10)
         if r == 0:
@@ -410,6 +412,11 @@ def execute(plan, run):
             run.probe('corrupt_' + nm)
             run.fault('corrupt_' + nm)
         sf = {k: bytes.fromhex(v) for k, v in out['sigfields'].items()}
+        if step.get('wrap', 'none') != 'none':
+            # the lock is committed to by a wrapper; the reveal is appended to the witness
+            run.probe('lock_wrapped_' + step['wrap'])
+            lock, reveal = real('wrap_lock(' + step['wrap'] + ')', wrap_lock, lock, step['wrap'])
+            w = T.Script('# witness + reveal #', w.bytes + reveal)
         if step.get('decor'):
             run.probe('witness_with_code')
             w = T.Script('# decorated witness #', T.compile_script(step['decor']) + w.bytes)
